@@ -678,7 +678,7 @@ class ScaledIdentityMatrix(SymmetricMatrix, DifferentiableMatrix, ImplicitArrayM
         return f"(shape={self.shape}, scalar={self._scalar})"
 
     def _compute_hash(self) -> int:
-        return hash((self.shape, self.scalar))
+        return hash((self.shape, float(self.scalar)))
 
     def _check_equality(self, other: ScaledIdentityMatrix) -> bool:
         return self.shape == other.shape and self.scalar == other.scalar
@@ -1520,7 +1520,7 @@ class ScaledOrthogonalMatrix(InvertibleMatrix, ImplicitArrayMatrix):
         return ScaledOrthogonalMatrix(1 / self._scalar, self._orth_array.T)
 
     def _compute_hash(self) -> int:
-        return hash((self._scalar, hash_array(self._orth_array)))
+        return hash((float(self._scalar), hash_array(self._orth_array)))
 
     def _check_equality(self, other: ScaledOrthogonalMatrix) -> bool:
         return self._scalar == other._scalar and (  # noqa: SLF001
